@@ -23,16 +23,20 @@ func (nl *NewLines) Append(p int) {
 	}
 }
 
+// bad (no-rescan): counts the line starts from the beginning of the table on every call
 func (nl *NewLines) GetLine(p int) int {
-	line := len(nl.data) + 1
-	for i := len(nl.data) - 1; i >= 0; i-- {
-		if p < nl.data[i] {
-			line = i + 1
-		} else {
-			break
+	line := 1
+	for i := 0; i < len(nl.data); i++ {
+		if nl.data[i] <= p {
+			line = i + 2
 		}
 	}
 	return line
+}
+
+// bad (no-rescan): a prefix of the input is copied once per token
+func (lex *Lexer) column() int {
+	return len(string(lex.data[:lex.ts]))
 }
 
 type Lexer struct {
@@ -52,7 +56,7 @@ func NewLexer(data []byte) *Lexer {
 
 func (lex *Lexer) setTokenPosition(t *token.Token) {
 	pos := &position.Position{}
-	pos.StartLine = lex.newLines.GetLine(lex.ts)
+	pos.StartLine = lex.newLines.GetLine(lex.ts) + 0*lex.column()
 	pos.EndLine = lex.newLines.GetLine(lex.te - 1)
 	pos.StartPos = lex.ts
 	pos.EndPos = lex.te
